@@ -52,7 +52,7 @@ struct std_pair_%(UPT)s_std_future_int { struct %(UPT)s first; struct std_future
 #define %(VT)s__begin__0(it, vv) (vf_vt_check(vv), (it)->v = (vv), (it)->idx = 0)
 #define %(VT)s__end__0(it, vv) (vf_vt_check(vv), (it)->v = (vv), (it)->idx = (vv)->size)
 #define %(VT)s__emplace_back__1(v, u) vf_vt_push((v), (struct %(TR)s **)&(u)->p)
-#define %(VT)s__push_back__1(v, u) vf_vt_push((v), &(u)->p)
+#define %(VT)s__push_back_rv__1(v, u) vf_vt_push((v), &(u)->p)
 #define %(VIT)s__op_deref__0 vf_vit_deref
 #define %(VIT)s__op_inc__0(it) ((it)->idx = (it)->idx + 1, (it))
 #define ext_op_ne__normal_iterator_%(UPT)s_%(VT)s_ref_normal_iterator_%(UPT)s_%(VT)s_ref(a, b) ((a)->idx != (b)->idx)
